@@ -8,7 +8,7 @@ import time
 from .facts import VERIF, REPO
 
 KNOWN_FILE = os.path.join(VERIF, "known_findings.txt")
-EVID_DIR = os.path.join(VERIF, "evidence")
+EVID_DIR = os.environ.get("H4_EVID_DIR") or os.path.join(VERIF, "evidence")
 
 
 class Instance:
